@@ -240,6 +240,21 @@ func (g *gen) mutate(o *spb.AFTOperation, which int) (out *spb.AFTOperation) {
 		} else {
 			return g.mutate(g.entry(spb.AFTOperation_ADD, KNH, o.NetworkInstance), 18)
 		}
+	case 20, 21: // entry kinds the server does not implement (ethernet MAC, policy forwarding), for every operation type
+		if g.chance(1, 2) {
+			o.Entry = &spb.AFTOperation_MacEntry{MacEntry: &aftpb.Afts_MacEntryKey{MacAddress: "02:00:00:00:00:01", MacEntry: &aftpb.Afts_MacEntry{}}}
+		} else {
+			o.Entry = &spb.AFTOperation_PolicyForwardingEntry{PolicyForwardingEntry: &aftpb.Afts_PolicyForwardingEntryKey{Index: 1, PolicyForwardingEntry: &aftpb.Afts_PolicyForwardingEntry{}}}
+		}
+		o.Op = []spb.AFTOperation_Operation{spb.AFTOperation_ADD, spb.AFTOperation_REPLACE, spb.AFTOperation_DELETE}[g.pick(3)]
+		if g.chance(1, 4) {
+			// typed-nil payload inside the wrapper
+			if g.chance(1, 2) {
+				o.Entry = &spb.AFTOperation_MacEntry{}
+			} else {
+				o.Entry = &spb.AFTOperation_PolicyForwardingEntry{}
+			}
+		}
 	case 19: // zero / absent operation id (at most once per run: ids must stay unique)
 		if !g.usedZeroID {
 			g.usedZeroID = true
